@@ -139,6 +139,18 @@ theorem groups_flatten_any_fuel (names : List (Str × Str)) (tbl : List (Str × 
     ∃ l, expand names tbl fuel g = .ok l ∧ Flatten names tbl g.members l :=
   expand_flatten names tbl rank hac fuel g hwf hf
 
+/-- outside the acyclic case: a group that names itself, or a group the table does not hold, raises
+`ValueError` at that member (earlier members cannot mask it unless they fail themselves). -/
+theorem bad_reference_rejected (names : List (Str × Str)) (tbl : List (Str × Group))
+    (recur : Group → Except Err (List Str)) (self g : Str) (ms : List Member)
+    (h : g = self ∨ dictGet tbl g = none) :
+    expandList names tbl recur self (.grp g :: ms) = .error .valueError := by
+  rcases h with h | h
+  · subst h; simp [expandList, plainMember, bind, Except.bind]
+  · by_cases hs : g = self
+    · subst hs; simp [expandList, plainMember, bind, Except.bind]
+    · simp [expandList, plainMember, hs, h, bind, Except.bind]
+
 /-- **tables_exact** (name and group tables): the table answers `v` for `k` exactly when a
 definition `(k, v)` exists that no later definition of `k` follows; it answers nothing exactly for
 undefined keys; its items are exactly these pairs, one per key. -/
